@@ -254,6 +254,9 @@ func genParams(r *hx.Rand) *params {
 		p.sgs[0] = ""
 	}
 	p.ipc, p.ip6c = r.Range(-1, 12), r.Range(-1, 5)
+	if r.Chance(1, 3) {
+		p.ip6c = p.ipc // a dual-stack interface is filled with as many IPv6 as IPv4 addresses: two different calls with equal arguments
+	}
 	nt := r.Intn(7)
 	if r.Chance(1, 6) {
 		nt = r.Range(7, 48) // any number of tags
